@@ -97,4 +97,21 @@ theorem onceRuns_le_one (es : List Ev) (s s' : St) (o : Nat) (hr : run s es = so
         · cases hc
       · simp [ho]; exact hrest
 
+/-- counter bookkeeping of a WaitGroup along any well-formed trace -/
+theorem wg_balance (es : List Ev) (s s' : St) (w : Nat) (hr : run s es = some s') :
+    s'.wg w + wgDones w es = s.wg w + wgAdds w es := by
+  induction es generalizing s with
+  | nil => simp only [run] at hr; injection hr with hr; subst hr; simp [wgDones, wgAdds]
+  | cons e es ih =>
+    simp only [run] at hr
+    cases hs : step s e with
+    | none => simp [hs] at hr
+    | some sm =>
+      rw [hs] at hr
+      have hrest := ih sm hr
+      have hc := (step_core hs).1
+      cases e <;> simp only [stepCore] at hc <;> (try split at hc) <;> (try cases hc) <;>
+        simp only [wgDones, wgAdds] <;> (try exact hrest)
+      all_goals (simp only [upd] at hrest; split at hrest <;> simp_all <;> omega)
+
 end GB.C18.HB
